@@ -1089,7 +1089,7 @@ func (e *Evaluator) evalNestedStatement(stmt Statement) error {
 			indexIdent := e.lexer.GetString(&st.IndexIdent.token)
 			indexLocal, err = e.getVariable(indexIdent)
 			if err != nil {
-				return e.error(st.Token(), err.Error())
+				return e.error(st.IndexIdent.Token(), err.Error())
 			}
 		}
 
